@@ -151,6 +151,7 @@ pub fn gen_case(prop: &str, seed: u64, idx: u64, tier: &str) -> AnyCase {
                 let mut cc = clisim::gen_conv(&mut rng);
                 if cc.hard.is_none() {
                     cc.hard = Some(rng.below(60) as u32);
+                    cc.hard_kind = rng.below(4) as u8;
                 }
                 return AnyCase::Conv(cc);
             }
